@@ -3,19 +3,31 @@
    new one (same names, fields a prefix, nested declarations an order-preserving sub-list).
    Definitions only. *)
 From Coq Require Import String List NArith Bool.
-From J5V.lib Require Import Outcome.
+From J5V.lib Require Import Outcome Corr.
 From J5V.model Require Import J5sAst Desc J5sWalk.
 Import ListNotations.
 Local Open Scope N_scope.
 
 (* ------------------------------------------------------------------ edits *)
+(* where inside a declaration an append lands: [root] picks the message the address starts from
+   (the declared object / oneof itself, a method's request or response, a topic message), the
+   steps lead from a message to the inline type of its i-th property (through array and map
+   items) or to its k-th nested declaration (`schemas`) *)
+Inductive step := SInline (i : nat) | SNested (k : nat).
+Inductive root := AtDecl | AtRequest (m : nat) | AtResponse (m : nat) | AtTopicMsg (reply : bool) (k : nat).
+Inductive action :=
+| AField (p : property)      (* a field at the end of the message reached *)
+| AOption (o : str)          (* an option at the end of the enum reached *)
+| ASub (n : nested).         (* a nested declaration at the end of the message reached *)
+
 Inductive edit :=
 | EAppendField (file elem : nat) (p : property)           (* object / oneof declaration *)
 | EAppendOption (file elem : nat) (o : str)                (* enum declaration *)
 | EAppendDecl (file : nat) (e : element)
 | EAppendRequestField (file elem meth : nat) (p : property)
 | EAppendResponseField (file elem meth : nat) (p : property)
-| EAppendTopicField (file elem msg : nat) (p : property).
+| EAppendTopicField (file elem msg : nat) (p : property)
+| EAppendIn (file elem : nat) (r : root) (path : list step) (a : action).   (* anywhere inside a declaration *)
 
 Fixpoint update_nth {A} (n : nat) (f : A -> A) (l : list A) : list A :=
   match l, n with
@@ -25,6 +37,65 @@ Fixpoint update_nth {A} (n : nat) (f : A -> A) (l : list A) : list A :=
   end.
 
 Definition snoc_prop (ps : props) (p : property) : props := papp ps (PCons p PNil).
+
+(* an option is appended only to an enum that already has options: appended to an empty one it
+   could take the place of the implicit zero value *)
+Definition enum_snoc (e : enum) (o : str) : enum :=
+  match e_opts e with
+  | [] => e
+  | _ => mkEnum (e_name e) (e_prefix e) (e_opts e ++ [o])
+  end.
+
+(* the inline type of a field (through array and map items) *)
+Fixpoint in_field (onmsg : props -> props) (onenum : enum -> enum) (f : field) {struct f} : field :=
+  match f with
+  | FObjInline nm ps => FObjInline nm (onmsg ps)
+  | FOneofInline nm ps => FOneofInline nm (onmsg ps)
+  | FEnumInline e => FEnumInline (onenum e)
+  | FArray it => FArray (in_field onmsg onenum it)
+  | FMap it => FMap (in_field onmsg onenum it)
+  | _ => f
+  end.
+
+Definition in_nested (onmsg : props -> nesteds -> props * nesteds) (onenum : enum -> enum) (n : nested) : nested :=
+  match n with
+  | NObject nm ps subs => let (a, c) := onmsg ps subs in NObject nm a c
+  | NOneof nm ps subs => let (a, c) := onmsg ps subs in NOneof nm a c
+  | NEnum e => NEnum (onenum e)
+  end.
+
+Fixpoint update_prop (i : nat) (g : field -> field) (ps : props) : props :=
+  match ps, i with
+  | PNil, _ => PNil
+  | PCons (Property n rq op f) r, O => PCons (Property n rq op (g f)) r
+  | PCons q r, S k => PCons q (update_prop k g r)
+  end.
+
+Fixpoint update_nested (k : nat) (g : nested -> nested) (ns : nesteds) : nesteds :=
+  match ns, k with
+  | NNil, _ => NNil
+  | NCons n r, O => NCons (g n) r
+  | NCons n r, S j => NCons n (update_nested j g r)
+  end.
+
+(* the action applied to the message (ps, subs) or, one step further, to an enum; an address
+   that leads nowhere changes nothing *)
+Fixpoint apply_at (path : list step) (a : action) (ps : props) (subs : nesteds) {struct path} : props * nesteds :=
+  let onenum rest := fun e => match rest, a with [], AOption o => enum_snoc e o | _, _ => e end in
+  match path with
+  | [] =>
+      match a with
+      | AField p => (snoc_prop ps p, subs)
+      | AOption _ => (ps, subs)
+      | ASub n => (ps, napp subs (NCons n NNil))
+      end
+  | SInline i :: rest =>
+      (update_prop i (in_field (fun q => fst (apply_at rest a q NNil)) (onenum rest)) ps, subs)
+  | SNested k :: rest =>
+      (ps, update_nested k (in_nested (apply_at rest a) (onenum rest)) subs)
+  end.
+
+Definition apply_props (path : list step) (a : action) (ps : props) : props := fst (apply_at path a ps NNil).
 
 Definition edit_element (e : edit) (el : element) : element :=
   match e, el with
@@ -48,6 +119,26 @@ Definition edit_element (e : edit) (el : element) : element :=
               | TUpsert n en m => TUpsert n en (mkTmsg (tm_name m) (snoc_prop (tm_fields m) p))
               | TEvent n en m => TEvent n en (mkTmsg (tm_name m) (snoc_prop (tm_fields m) p))
               end)
+  | EAppendIn _ _ AtDecl path a, EObject nm ps subs => let (x, y) := apply_at path a ps subs in EObject nm x y
+  | EAppendIn _ _ AtDecl path a, EOneof nm ps subs => let (x, y) := apply_at path a ps subs in EOneof nm x y
+  | EAppendIn _ _ (AtRequest m) path a, EService s =>
+      EService (mkService (sv_name s) (sv_base s)
+        (update_nth m (fun x => mkMethod (m_name x) (m_verb x) (m_path x) (apply_props path a (m_request x)) (m_response x))
+                    (sv_methods s)))
+  | EAppendIn _ _ (AtResponse m) path a, EService s =>
+      EService (mkService (sv_name s) (sv_base s)
+        (update_nth m (fun x => mkMethod (m_name x) (m_verb x) (m_path x) (m_request x)
+                                         (match m_response x with Some r => Some (apply_props path a r) | None => None end))
+                    (sv_methods s)))
+  | EAppendIn _ _ (AtTopicMsg reply k) path a, ETopic t =>
+      let one := fun x => mkTmsg (tm_name x) (apply_props path a (tm_fields x)) in
+      let upd := update_nth k one in
+      ETopic (match t with
+              | TPublish n msgs => TPublish n (upd msgs)
+              | TReqRes n rq rp => if reply then TReqRes n rq (upd rp) else TReqRes n (upd rq) rp
+              | TUpsert n en m => TUpsert n en (one m)
+              | TEvent n en m => TEvent n en (one m)
+              end)
   | _, _ => el
   end.
 
@@ -55,14 +146,14 @@ Definition edit_file (e : edit) (f : jfile) : jfile :=
   match e with
   | EAppendDecl _ d => mkJfile (jf_dir f) (jf_base f) (jf_imports f) (jf_elements f ++ [d])
   | EAppendField _ k _ | EAppendOption _ k _ | EAppendRequestField _ k _ _
-  | EAppendResponseField _ k _ _ | EAppendTopicField _ k _ _ =>
+  | EAppendResponseField _ k _ _ | EAppendTopicField _ k _ _ | EAppendIn _ k _ _ _ =>
       mkJfile (jf_dir f) (jf_base f) (jf_imports f) (update_nth k (edit_element e) (jf_elements f))
   end.
 
 Definition edit_target (e : edit) : nat :=
   match e with
   | EAppendField f _ _ | EAppendOption f _ _ | EAppendDecl f _ | EAppendRequestField f _ _ _
-  | EAppendResponseField f _ _ _ | EAppendTopicField f _ _ _ => f
+  | EAppendResponseField f _ _ _ | EAppendTopicField f _ _ _ | EAppendIn f _ _ _ _ => f
   end.
 
 Definition apply_edit (bd : bundle) (e : edit) : bundle :=
@@ -101,21 +192,110 @@ Definition file_ext (a c : dfile) : Prop :=
 
 Definition files_ext (D D' : list dfile) : Prop := sub_list file_ext D D'.
 
+(* ------------------------------------------------------------------ a checker for the embedding *)
+(* Sufficient boolean test for files_ext (sound: J5sExtBoolProofs; greedy left-to-right
+   matching, complete when sibling names are distinct); evaluated on the real before / after
+   descriptors of every generated pair. *)
+Section SubListB.
+Context {A : Type}.
+Variable R : A -> A -> bool.
+Fixpoint prefix_b (l l' : list A) {struct l} : bool :=
+  match l, l' with
+  | [], _ => true
+  | a :: r, c :: r' => R a c && prefix_b r r'
+  | _ :: _, [] => false
+  end.
+Fixpoint sub_list_b (l l' : list A) {struct l} : bool :=
+  match l with
+  | [] => true
+  | a :: r =>
+      (fix scan (q : list A) {struct q} : bool :=
+         match q with
+         | [] => false
+         | c :: q' => if R a c then sub_list_b r q' else scan q'
+         end) l'
+  end.
+End SubListB.
+
+Definition enum_ext_b (a c : denum) : bool :=
+  str_eqb (en_name a) (en_name c) &&
+  prefix_b (fun p q => str_eqb (fst p) (fst q) && (snd p =? snd q)) (en_vals a) (en_vals c).
+
+Fixpoint msg_ext_b (x y : dmsg) {struct x} : bool :=
+  match x, y with
+  | DMsg n k fs ms es, DMsg n' k' fs' ms' es' =>
+      str_eqb n n' && mkind_eqb k k' && prefix_b dfield_eqb fs fs' &&
+      sub_list_b msg_ext_b ms ms' && sub_list_b enum_ext_b es es'
+  end.
+
+Definition service_ext_b (a c : dservice) : bool :=
+  str_eqb (ds_name a) (ds_name c) &&
+  option_eqb (fun p q => str_eqb (fst p) (fst q) && role_eqb (snd p) (snd q)) (ds_topic a) (ds_topic c) &&
+  prefix_b dmethod_eqb (ds_methods a) (ds_methods c).
+
+Definition file_ext_b (a c : dfile) : bool :=
+  str_eqb (fl_path a) (fl_path c) && str_eqb (fl_pkg a) (fl_pkg c) &&
+  sub_list_b msg_ext_b (fl_msgs a) (fl_msgs c) &&
+  sub_list_b enum_ext_b (fl_enums a) (fl_enums c) &&
+  sub_list_b service_ext_b (fl_svcs a) (fl_svcs c).
+
+Definition files_ext_b (D D' : list dfile) : bool := sub_list_b file_ext_b D D'.
+
 (* ------------------------------------------------------------------ source files: extended by appends *)
 (* What any sequence of C13 edits does to a source file, as a relation: properties appended
-   to objects / oneofs / requests / responses / topic messages, options appended to (non-empty)
-   enums, declarations appended to the file. *)
+   to objects / oneofs / requests / responses / topic messages and to the inline objects /
+   oneofs inside them (to any depth, also through arrays and maps) and to the nested
+   declarations of objects / oneofs, options appended to (non-empty) enums - declared, nested
+   or inline -, nested declarations appended to objects / oneofs, declarations appended to the
+   file. *)
+Inductive field_ext : field -> field -> Prop :=
+| fe_refl : forall f, field_ext f f
+| fe_obj : forall nm ps ps', props_ext ps ps' -> field_ext (FObjInline nm ps) (FObjInline nm ps')
+| fe_oneof : forall nm ps ps', props_ext ps ps' -> field_ext (FOneofInline nm ps) (FOneofInline nm ps')
+| fe_enum : forall nm pfx opts extra, opts <> [] ->
+    field_ext (FEnumInline (mkEnum nm pfx opts)) (FEnumInline (mkEnum nm pfx (opts ++ extra)))
+| fe_array : forall it it', field_ext it it' -> field_ext (FArray it) (FArray it')
+| fe_map : forall it it', field_ext it it' -> field_ext (FMap it) (FMap it')
+with props_ext : props -> props -> Prop :=
+| pe_nil : forall extra, props_ext PNil extra
+| pe_cons : forall n rq op f f' r r', field_ext f f' -> props_ext r r' ->
+    props_ext (PCons (Property n rq op f) r) (PCons (Property n rq op f') r').
+
+Scheme field_ext_mind := Induction for field_ext Sort Prop
+  with props_ext_mind := Induction for props_ext Sort Prop.
+Combined Scheme ext_mutind from field_ext_mind, props_ext_mind.
+Scheme field_ext_min := Minimality for field_ext Sort Prop
+  with props_ext_min := Minimality for props_ext Sort Prop.
+Combined Scheme ext_min from field_ext_min, props_ext_min.
+
+(* nested declarations (`schemas`): each extended in the same way, more of them at the end *)
+Inductive nested_ext : nested -> nested -> Prop :=
+| ne_refl : forall n, nested_ext n n
+| ne_obj : forall nm ps ps' subs subs', props_ext ps ps' -> nesteds_ext subs subs' ->
+    nested_ext (NObject nm ps subs) (NObject nm ps' subs')
+| ne_oneof : forall nm ps ps' subs subs', props_ext ps ps' -> nesteds_ext subs subs' ->
+    nested_ext (NOneof nm ps subs) (NOneof nm ps' subs')
+| ne_enum : forall nm pfx opts extra, opts <> [] ->
+    nested_ext (NEnum (mkEnum nm pfx opts)) (NEnum (mkEnum nm pfx (opts ++ extra)))
+with nesteds_ext : nesteds -> nesteds -> Prop :=
+| nn_nil : forall extra, nesteds_ext NNil extra
+| nn_cons : forall n n' r r', nested_ext n n' -> nesteds_ext r r' -> nesteds_ext (NCons n r) (NCons n' r').
+
+Scheme nested_ext_min := Minimality for nested_ext Sort Prop
+  with nesteds_ext_min := Minimality for nesteds_ext Sort Prop.
+Combined Scheme next_min from nested_ext_min, nesteds_ext_min.
+
 Definition method_ext (m m' : method) : Prop :=
   m_name m' = m_name m /\ m_verb m' = m_verb m /\ m_path m' = m_path m /\
-  (exists extra, m_request m' = papp (m_request m) extra) /\
+  props_ext (m_request m) (m_request m') /\
   match m_response m, m_response m' with
   | None, None => True
-  | Some r, Some r' => exists extra, r' = papp r extra
+  | Some r, Some r' => props_ext r r'
   | _, _ => False
   end.
 
 Definition tmsg_ext (t t' : tmsg) : Prop :=
-  tm_name t' = tm_name t /\ exists extra, tm_fields t' = papp (tm_fields t) extra.
+  tm_name t' = tm_name t /\ props_ext (tm_fields t) (tm_fields t').
 
 Inductive topic_ext : topic -> topic -> Prop :=
 | te_publish : forall n ms ms', Forall2 tmsg_ext ms ms' -> topic_ext (TPublish n ms) (TPublish n ms')
@@ -125,8 +305,10 @@ Inductive topic_ext : topic -> topic -> Prop :=
 | te_event : forall n en m m', tmsg_ext m m' -> topic_ext (TEvent n en m) (TEvent n en m').
 
 Inductive element_ext : element -> element -> Prop :=
-| ee_object : forall nm ps extra subs, element_ext (EObject nm ps subs) (EObject nm (papp ps extra) subs)
-| ee_oneof : forall nm ps extra subs, element_ext (EOneof nm ps subs) (EOneof nm (papp ps extra) subs)
+| ee_object : forall nm ps ps' subs subs', props_ext ps ps' -> nesteds_ext subs subs' ->
+    element_ext (EObject nm ps subs) (EObject nm ps' subs')
+| ee_oneof : forall nm ps ps' subs subs', props_ext ps ps' -> nesteds_ext subs subs' ->
+    element_ext (EOneof nm ps subs) (EOneof nm ps' subs')
 | ee_enum_same : forall en, element_ext (EEnum en) (EEnum en)
 | ee_enum : forall nm pfx opts extra, opts <> [] ->
     element_ext (EEnum (mkEnum nm pfx opts)) (EEnum (mkEnum nm pfx (opts ++ extra)))
